@@ -213,5 +213,7 @@ def run(tier, seed):
                                    "case": {"follow": c[0], "max_redirects": c[1], "url": c[2], "table": c[3]},
                                    "trace": {"outcome": o, "connections": log}})
     redirect_pin_cases(res)
+    import cliclient
+    cliclient.run_get(res, tier)
     res.rule += " | plus, with the trust store on: a redirect to another port of the same host / to another host presenting the same certificate, with that hop pinned differently or not at all"
     return res
